@@ -272,7 +272,7 @@ def yield_vector(ctx, rule):
                 if f is not fn:
                     in_loop[0] = in_loop[0] or top[0] in cyc
                 ctx.ob(rule, "yield|accumulated|%s|%s" % (where, seg), True, "requests are added to the yielded vector with %s" % seg, f.loc(bi))
-            elif p in facts.fns and is_new_fn(p) and depth < 3:
+            elif p in facts.fns and (is_new_fn(p) or p == CC + "read") and depth < 3:
                 g = facts.fns[p]
                 if f is fn:
                     top[0] = bi
@@ -298,3 +298,67 @@ def yield_vector(ctx, rule):
 def callee(t):
     c = t["callee"]
     return (c.get("resolved") or {}).get("path") or c.get("path")
+
+
+def read_out_params(facts):
+    """Argument numbers of `&mut Vec<_>` parameters of ClientConnection::read (the caller's vector, filled in place)."""
+    fn = facts.fns[CC + "read"]
+    out = []
+    for i in range(2, fn.nargs + 1):
+        ty = fn.locals[i]["ty"]
+        if ty.get("k") == "ref" and ty.get("mut") and (ty.get("inner") or {}).get("path") == "std::vec::Vec":
+            out.append(i)
+    return out
+
+
+def _strip_mut(t):
+    t = look(t)
+    while t[0] == "mut":
+        t = look(t[1])
+    return t
+
+
+def read_yield(facts, lf):
+    """What one path of ClientConnection::read hands to its caller.
+    form 'returned': the vector in Ok(v);  form 'out-param': the caller's vector is filled in place --
+    `vec` is then the local vector whose items are appended (extend / append of it, possibly mapped through a wrapping
+    closure), `pushes` the single items pushed directly, `acc` all accumulating calls on the parameter."""
+    rk = ret_kind(lf)
+    ops = read_out_params(facts)
+    if not ops:
+        v = look(rk[1]) if rk is not None and rk[0] == "Ok" else None
+        if v is not None and v[0] == "agg" and v[1] in facts.adts and v[1].split("::")[0] not in ("std", "core", "alloc"):
+            # a private struct carrying the vector next to other results: `ReadOutcome { requests, awaiting_outgoing }`
+            vf = [i for i, f_ in enumerate(facts.struct_fields(v[1])) if (f_["ty"].get("path") == "std::vec::Vec")]
+            if len(vf) == 1:
+                w = _strip_mut(v[3][vf[0]])
+                while w[0] == "call" and last_seg(w[1]) in ("map", "into_iter", "iter", "drain", "collect", "by_ref") and w[2]:
+                    w = _strip_mut(w[2][0])
+                v = w
+        empty = v is not None and is_call(v, "new") and "Vec" in v[1]
+        if empty:
+            filled = [e for e in lf.events if e[0] == "call" and last_seg(e[3]) in ACCUMULATORS and e[4][2] and norm(_strip_mut(e[4][2][0])) == norm(v)]
+            empty = not filled
+        return {"form": "returned", "vec": v, "acc": [], "pushes": [], "empty": empty}
+    acc = []
+    for e in lf.events:
+        if e[0] == "call" and last_seg(e[3]) in ACCUMULATORS and e[4][2]:
+            r = _strip_mut(e[4][2][0])
+            if r[0] == "arg" and r[1] in ops:
+                acc.append(e)
+    vec = None
+    pushes = []
+    for e in acc:
+        if last_seg(e[3]) == "push":
+            pushes.append(e)
+            continue
+        src = _strip_mut(e[4][2][1])
+        while src[0] == "call" and last_seg(src[1]) in ("map", "into_iter", "iter", "drain", "collect", "by_ref") and src[2]:
+            src = _strip_mut(src[2][0])
+        vec = src
+    empty = not acc
+    if acc and not pushes and vec is not None and is_call(vec, "new") and "Vec" in vec[1]:
+        # `out.extend(local.into_iter().map(wrap))` with a local vector nothing was pushed onto on this path
+        filled = [e for e in lf.events if e[0] == "call" and last_seg(e[3]) in ACCUMULATORS and e[4][2] and norm(_strip_mut(e[4][2][0])) == norm(vec)]
+        empty = not filled
+    return {"form": "out-param", "vec": vec, "acc": acc, "pushes": pushes, "empty": empty, "param": ops}
